@@ -535,6 +535,7 @@ func topFields(md protoreflect.MessageDescriptor) []string {
 func main() {
 	h := hx.New("C14")
 	registerOpenClose(h)
+	registerRamp(h)
 	for _, uo := range []bool{false, true} {
 		for _, n := range []int{1, 2} {
 			name := concurrentName(uo, n)
